@@ -12,6 +12,48 @@ use crate::wire::*;
 
 /// Canonical form of an application reply: wall-clock fields and the fields that by
 /// specification carry an endpoint address are masked.
+/// For the protocols whose reply carries an endpoint address, the canonical form also records
+/// whether the reply passes the reference decoder for THIS request and endpoint (so that a
+/// structural defect that depends on the port or the IP version is visible although the
+/// address-bearing bytes themselves are masked).
+pub fn canon_checked(name: &str, request: &[u8], reply: Option<&[u8]>, ctx: &crate::app::AppCtx) -> String {
+    let tcp = ctx.transport == crate::app::Transport::Tcp;
+    let base = canon_for(name, reply, tcp);
+    if base == "-" || base == "bare-ack" || base == "empty" {
+        return format!("{}||v=n/a", base);
+    }
+    if name.starts_with("stun") || name.starts_with("rpc") || name.starts_with("dns") {
+        let sigs = crate::sig::signatures();
+        let v = if tcp {
+            let mut st = crate::model::FlowState::default();
+            crate::app::stream_verdict(&sigs, &mut st, request, ctx)
+        } else {
+            crate::app::datagram_verdict(&sigs, request, ctx)
+        };
+        if let crate::app::AppVerdict::Answer(req) = v {
+            let app = reply.and_then(app_payload).map(|(_, p)| p).unwrap_or_default();
+            return match req.validate(&app, ctx) {
+                Ok(()) => format!("{}||v=decodes", base),
+                Err((_, k, _)) => format!("{}||v={}", base, k),
+            };
+        }
+    }
+    format!("{}||v=n/a", base)
+}
+
+/// canonical forms agree (the decoder verdict is compared only where the reference decides)
+pub fn same(a: &str, b: &str) -> bool {
+    let split = |x: &str| -> (String, String) {
+        match x.rfind("||v=") {
+            Some(p) => (x[..p].to_string(), x[p + 4..].to_string()),
+            None => (x.to_string(), "n/a".to_string()),
+        }
+    };
+    let (ba, sa) = split(a);
+    let (bb, sb) = split(b);
+    ba == bb && (sa == "n/a" || sb == "n/a" || sa == sb)
+}
+
 pub fn canon_for(name: &str, reply: Option<&[u8]>, tcp: bool) -> String {
     let app = match reply.and_then(app_payload) {
         Some((_, p)) => p,
@@ -64,6 +106,10 @@ pub fn canon_for(name: &str, reply: Option<&[u8]>, tcp: bool) -> String {
     hex(&m)
 }
 
+pub fn ctx_of(f: &Flow, tcp: bool) -> crate::app::AppCtx {
+    crate::app::AppCtx { cip: f.cip, sip: f.sip, cport: f.cport, sport: f.sport, transport: if tcp { crate::app::Transport::Tcp } else { crate::app::Transport::Udp } }
+}
+
 pub fn port_points(sweep: u64, i: u64) -> (u16, u16) {
     match sweep {
         0 => (40000, i as u16),                              // all destination ports
@@ -96,16 +142,16 @@ pub fn run(rep: &mut Report, thorough: bool) {
         for p in &sel {
             if p.via != Via::TcpOnly {
                 let o = d.exec(&[Cmd::Reset, Cmd::Frame(ref_flow.udp(&p.bytes))]).map(|v| v[1].clone()).unwrap_or_default();
-                refs.insert((p.name.to_string(), false), canon_for(p.name, o.reply.as_deref(), false));
+                refs.insert((p.name.to_string(), false), canon_checked(p.name, &p.bytes, o.reply.as_deref(), &ctx_of(&ref_flow, false)));
             }
             if p.via != Via::UdpOnly {
                 let o = d.exec(&[Cmd::Reset, Cmd::Frame(ref_flow.tcp(1000, rc, F_PSH | F_ACK, &p.bytes))]).map(|v| v[1].clone()).unwrap_or_default();
-                refs.insert((p.name.to_string(), true), canon_for(p.name, o.reply.as_deref(), true));
+                refs.insert((p.name.to_string(), true), canon_checked(p.name, &p.bytes, o.reply.as_deref(), &ctx_of(&ref_flow, true)));
             }
         }
     }
     for ((n, t), c) in &refs {
-        rep.sink.class(&format!("ref:{}:{}:{}", n, if *t { "tcp" } else { "udp" }, if c == "-" || c == "bare-ack" { "unanswered" } else { "answered" }));
+        rep.sink.class(&format!("ref:{}:{}:{}", n, if *t { "tcp" } else { "udp" }, if c.starts_with("-||") || c.starts_with("bare-ack||") { "unanswered" } else { "answered" }));
     }
     // UDP sweeps
     let udp_sel: Vec<&Payload> = sel.iter().filter(|p| p.via != Via::TcpOnly).cloned().collect();
@@ -126,9 +172,10 @@ pub fn run(rep: &mut Report, thorough: bool) {
         |it: &Item, sk: &mut Sink| {
             let d = unrank(it.idx, &dims);
             let p = udp_sel[d[0] as usize];
-            let got = canon_for(p.name, it.outs[0].reply.as_deref(), false);
+            let (sp0, dp0) = port_points(d[2], d[3]);
+            let got = canon_checked(p.name, &p.bytes, it.outs[0].reply.as_deref(), &ctx_of(&flow(d[1] == 1, sp0, dp0), false));
             let want = &refs[&(p.name.to_string(), false)];
-            if &got != want {
+            if !same(&got, want) {
                 let (sp, dp) = port_points(d[2], d[3]);
                 sk.violation(Violation {
                     prop: "C19".into(),
@@ -184,9 +231,9 @@ pub fn run(rep: &mut Report, thorough: bool) {
                 sk.violation(Violation { prop: "C01".into(), key: format!("panic:{}", engine::panic_site(&it.outs[1].text)), what: it.outs[1].text.clone(), cfg: cfgc.clone(), cmds: it.cmds.to_vec(), idx: it.idx, stage: "tcp-ports".into() });
                 return;
             }
-            let got = canon_for(p.name, it.outs[1].reply.as_deref(), true);
+            let got = canon_checked(p.name, &p.bytes, it.outs[1].reply.as_deref(), &ctx_of(&flow_of(d[1]), true));
             let want = &refs[&(p.name.to_string(), true)];
-            if &got != want {
+            if !same(&got, want) {
                 let f = flow_of(d[1]);
                 sk.violation(Violation {
                     prop: "C19".into(),
